@@ -201,6 +201,27 @@ template <unsigned N> static void cat_get(const std::uint64_t (&keys)[N]) {
   qstate();
   WITNESS();
 }
+// larger size classes: built by concrete inserts (growth chain I4 -> I16 -> I48 -> I256), optionally shrunk again by concrete removes, then ONE symbolic get
+template <unsigned N, unsigned NDEL> static void big_get() {
+  static db_t d;
+  olc_thread_init();
+  for (unsigned i = 0; i < N; i++) { std::uint8_t v = static_cast<std::uint8_t>(i + 1); bool r = d.insert(B | (i * 5 + 2), vv(&v, 1)); PROP(r, "C01: prelude insert of a fresh key succeeds"); }
+  for (unsigned i = 0; i < NDEL; i++) PROP(d.remove(B | (((i * 7) % N) * 5 + 2)), "C01: prelude remove of a present key succeeds");   // removes entries (7i mod N): scattered, N is coprime to 7
+  const std::uint64_t k = in_u64();
+  int idx = -1;
+  for (unsigned i = 0; i < N; i++) { bool removed = false; for (unsigned j = 0; j < NDEL; j++) if ((j * 7) % N == i) removed = true; if (k == (B | (i * 5 + 2)) && !removed) idx = static_cast<int>(i); }
+  got g = do_get(d, k);
+  PROP(g.found == (idx >= 0), "C01: get finds a key iff it was inserted and not removed (after growth/shrink between node size classes)");
+  if (g.found) PROP(g.size == 1 && g.b[0] == static_cast<std::uint8_t>(idx + 1), "C01: get yields the bytes of the insert that created the entry");
+  OBSERVE(g.found); OBSERVE(g.b[0]);
+  qstate();
+  WITNESS();
+}
+HARNESS(big_i48) { big_get<20, 0>(); }           // I4 -> I16 -> I48
+HARNESS(big_i256) { big_get<51, 0>(); }          // ... -> I256
+HARNESS(big_shr16) { big_get<17, 1>(); }         // min-size I48 shrinks to I16
+HARNESS(big_shr48) { big_get<49, 1>(); }         // min-size I256 shrinks to I48
+HARNESS(big_shr4) { big_get<18, 14>(); }         // I48 -> I16 -> I4
 #define CAT(name) \
   HARNESS(ins_##name) { cat_insert(K_##name); } \
   HARNESS(rem_##name) { cat_remove(K_##name); } \
